@@ -1989,6 +1989,11 @@ def randperm(n, generator=None, device=None, **k):
     return t
 
 
+def lerp(a, b, w):
+    """torch.lerp: a + w * (b - a)"""
+    return a + (b - a) * w
+
+
 def bernoulli(p, generator=None):
     raise Unsupported("bernoulli")
 
